@@ -46,7 +46,8 @@ cdef class AsyncListener:
         object addr,
         object port,
         object transport,
-        tuple v6_flow_scope
+        tuple v6_flow_scope,
+        bint duplicate=*
     )
 
     cpdef _respond_query(
@@ -55,5 +56,6 @@ cdef class AsyncListener:
         object addr,
         object port,
         object transport,
-        tuple v6_flow_scope
+        tuple v6_flow_scope,
+        bint duplicate=*
     )
